@@ -19,41 +19,62 @@ import (
 	"github.com/prometheus/common/model"
 )
 
-// index contains map of fingerprints to fingerprints.
-// The keys are fingerprints of the equal labels of source alerts.
-// The values are fingerprints of the source alerts.
+// index maps fingerprints of the equal labels of source alerts to the
+// fingerprints of all source alerts that have those equal labels.
 // For more info see comments on inhibitor and InhibitRule.
 type index struct {
 	mtx   sync.RWMutex
-	items map[model.Fingerprint]model.Fingerprint
+	items map[model.Fingerprint]map[model.Fingerprint]struct{}
 }
 
 func newIndex() *index {
 	return &index{
-		items: make(map[model.Fingerprint]model.Fingerprint),
+		items: make(map[model.Fingerprint]map[model.Fingerprint]struct{}),
 	}
 }
 
-func (c *index) Get(key model.Fingerprint) (model.Fingerprint, bool) {
+// Get returns the fingerprints of the source alerts indexed under key.
+func (c *index) Get(key model.Fingerprint) []model.Fingerprint {
 	c.mtx.RLock()
 	defer c.mtx.RUnlock()
 
-	fp, ok := c.items[key]
-	return fp, ok
+	set := c.items[key]
+	if len(set) == 0 {
+		return nil
+	}
+	fps := make([]model.Fingerprint, 0, len(set))
+	for fp := range set {
+		fps = append(fps, fp)
+	}
+	return fps
 }
 
-func (c *index) Set(key, value model.Fingerprint) {
+// Add indexes the source alert fingerprint value under key.
+func (c *index) Add(key, value model.Fingerprint) {
 	c.mtx.Lock()
 	defer c.mtx.Unlock()
 
-	c.items[key] = value
+	set, ok := c.items[key]
+	if !ok {
+		set = make(map[model.Fingerprint]struct{}, 1)
+		c.items[key] = set
+	}
+	set[value] = struct{}{}
 }
 
-func (c *index) Delete(key model.Fingerprint) {
+// Remove removes the source alert fingerprint value from key.
+func (c *index) Remove(key, value model.Fingerprint) {
 	c.mtx.Lock()
 	defer c.mtx.Unlock()
 
-	delete(c.items, key)
+	set, ok := c.items[key]
+	if !ok {
+		return
+	}
+	delete(set, value)
+	if len(set) == 0 {
+		delete(c.items, key)
+	}
 }
 
 func (c *index) Len() int {
